@@ -265,6 +265,12 @@ def run(tier, seed):
         run.add_tlc(res2, "segment table for the invariance laws")
         n = 0
         cases = list(cases_from_dump(res["dump"])) + list(law_cases(res2["dump"]))
+        # beyond the exhaustive bound: query/edit histories of 5..9 operations
+        sres, vals = engine.simulate_cases(work, "MC_C15", {"V": 4, "MaxOps": 9}, num=(3 if tier == "quick" else 100), depth=11,
+                                           seed=seed + 1, init="InitHist")
+        run.add_tlc(sres, "query/edit histories of 5-9 operations by TLC -simulate (%d behaviours)" % sres["behaviours"])
+        cases += [{"kind": "hist", "arg": v[1], "exp": v[2], "hist": v[3]} for v in vals]
+        run.extra["simulated_histories_replayed"] = len(vals)
         for case, r in engine.replay("harness.c15", cases, chunk=40):
             run.record(case, r, key=str((case["kind"], case.get("arg"), case.get("hist"), case.get("obj"))))
             if n % 500 == 5:
